@@ -38,6 +38,12 @@ type Engine interface {
 	Budget(tier string) int
 }
 
+// StatsEngine is optional: counters of an engine that are reported in the evidence but never compared
+// (e.g. how many requests really ran on a context reused from the sync.Pool).
+type StatsEngine interface {
+	Stats() map[string]int
+}
+
 var registry = map[string]Engine{}
 
 func register(e Engine) { registry[e.Name()] = e }
@@ -263,6 +269,7 @@ type Report struct {
 	Samples       []Finding      `json:"samples"`
 	Findings      []Finding      `json:"findings"`
 	WallS         float64        `json:"wall_s"`
+	EngineStats   map[string]int `json:"engine_stats,omitempty"`
 }
 
 func firstWord(s string) string {
